@@ -68,9 +68,14 @@ def new_node(name=None, link=False, own_dir=False):
     return p
 
 
-def replug(path):
+REPLUG_KINDS = ("rename-over", "moved-aside", "second-name")
+
+
+def replug(path, kind="rename-over"):
     """the path now names another node (new inode) while handles to the old one stay valid.  Regular file: create +
-    rename over it.  Symlink: create a new target and atomically re-point the link; the old target keeps existing."""
+    rename over it.  Symlink: create a new target and atomically re-point the link; the old target keeps existing.
+    kind (regular files): "moved-aside": the old node is renamed to another name first (mv sg3 sg3.old) and lives on there;
+    "second-name": the old node has a second hard link (a container's /dev) when it is replaced."""
     global _n
     _n += 1
     import stat
@@ -97,6 +102,10 @@ def replug(path):
         os.symlink(t, tmp)
         os.rename(tmp, path)
         return os.stat(path).st_ino
+    if kind == "moved-aside" and os.path.exists(path):
+        os.rename(path, path + ".old%d" % _n)
+    elif kind == "second-name" and os.path.exists(path):
+        os.link(path, path + ".hl%d" % _n)
     tmp = path + ".new%d" % _n
     with open(tmp, "wb") as f:
         f.write(b"node%d" % _n)
